@@ -208,6 +208,10 @@ pub struct GenCfg {
     pub real_modules: Vec<String>,
     /// synthetic `sim::*` modules may be generated (not possible when a real binary is driven)
     pub synthetic_modules: bool,
+    /// currency identifiers may be generated (C06's currency-on-demand sub-batch only)
+    pub currency: bool,
+    /// comment lines / trailing comments / unicode operator spellings may be generated
+    pub trivia: bool,
 }
 
 pub const N_KINDS: usize = 24;
@@ -312,6 +316,8 @@ impl Gen {
             allow_imports: rng.chance(0.8),
             real_modules,
             synthetic_modules: true,
+            currency: false,
+            trivia: rng.chance(0.3),
         }
     }
 
@@ -1345,6 +1351,15 @@ impl Gen {
                 self.import_statement(gi, false)
             }
             // ---- expressions, ans, print, procedures
+            16 if self.cfg.currency && self.rng.chance(0.35) => {
+                // currency identifiers: the first one in a session triggers on-demand loading
+                let c1 = *self.rng.pick(&["USD", "GBP", "JPY", "dollars", "yen", "$", "CHF", "EUR"]);
+                let c2 = *self.rng.pick(&["USD", "EUR", "euros", "GBP", "£"]);
+                gi.contains.insert("expr");
+                gi.features.insert("currency");
+                self.sym.ans = Some(Ty::Dim(SCALAR));
+                format!("({} {c1} + {} {c2}) / (1 {c2})", self.rng.range(1, 9), self.rng.range(1, 9))
+            }
             16 => {
                 let ty = self.random_ty(1);
                 let e = self.expr(&ty, depth, false);
@@ -1423,10 +1438,19 @@ impl Gen {
                         format!("use {name}")
                     }
                     "unit" if self.sym.units.iter().any(|u| u.name == name || u.short.as_deref() == Some(name.as_str())) => {
-                        // it exists by now: use it
+                        // it exists by now: use it (together with a unit of its own dimension)
                         gi.contains.insert("expr");
-                        self.sym.ans = Some(Ty::Dim([1, 0, 0, 0, 0, 0]));
-                        format!("{} {name} + 1 m", self.rng.range(1, 9))
+                        let d = self
+                            .sym
+                            .units
+                            .iter()
+                            .rev()
+                            .find(|u| u.name == name || u.short.as_deref() == Some(name.as_str()))
+                            .map(|u| u.dim)
+                            .unwrap_or([1, 0, 0, 0, 0, 0]);
+                        self.sym.ans = Some(Ty::Dim(d));
+                        let other = self.literal(&d);
+                        format!("{} {name} + {other}", self.rng.range(1, 9))
                     }
                     "dimension" if self.sym.dims.iter().any(|d| d.0 == name) || self.sym.named_dims.iter().any(|d| d.0 == name) => {
                         return self.statement(0, gi);
@@ -1808,6 +1832,16 @@ impl Gen {
                     "dimension Length".into(),
                     "print(1 m -> s)".into(),
                 ];
+                if self.cfg.currency {
+                    // type errors that do / do not trigger the on-demand load of units::currencies
+                    for _ in 0..3 {
+                        opts.push("1 USD + 1 m".into());
+                        opts.push("let vbadc: Length = 2 GBP".into());
+                        opts.push("undefined_name_q + 1 JPY".into());
+                        opts.push("1 yen + undefined_name_q".into());
+                        opts.push("print(3 $ -> s)".into());
+                    }
+                }
                 for f in self.sym.fns.iter().filter(|f| !f.generic) {
                     opts.push(format!("{}(1, 2, 3, 4)", f.name));
                     opts.push(format!("{}(true, \"x\", [1], 1 m, 2)", f.name));
@@ -1841,7 +1875,10 @@ impl Gen {
                     "element_at(5, [1, 2])",
                     "1.5!",
                 ];
-                let core = self.rng.pick(&opts).to_string();
+                let mut core = self.rng.pick(&opts).to_string();
+                if self.cfg.currency && self.rng.chance(0.3) {
+                    core = (*self.rng.pick(&["(1 USD) / (0 EUR)", "assert_eq(1 USD, 2 EUR)", "error(\"{1 GBP}\")"])).to_string();
+                }
                 let is_expr = !core.starts_with("assert");
                 match self.rng.below(6) {
                     0 if is_expr => {
@@ -1996,7 +2033,57 @@ impl Gen {
         }
         gi.n_statements = stmts.len();
         gi.text = stmts.join("\n");
+        if self.cfg.trivia {
+            gi.text = self.add_trivia(&gi.text);
+        }
         gi
+    }
+
+    /// Comment lines, trailing comments, blank lines and Unicode spellings of operators: none of
+    /// them changes what the input means, all of them change its bytes, line numbers and spans.
+    fn add_trivia(&mut self, text: &str) -> String {
+        let mut out: Vec<String> = vec![];
+        let mut prev_decorator = false;
+        for line in text.lines() {
+            let is_deco = line.starts_with('@');
+            if !prev_decorator {
+                if self.rng.chance(0.12) {
+                    let n = self.rng.range(0, 99);
+                    out.push(match self.rng.below(3) {
+                        0 => format!("# c{n}"),
+                        1 => format!("  # note {n}: 2 × 3 → 6 m²"),
+                        _ => format!("#c{n} let x = 1 / 0"),
+                    });
+                }
+                if self.rng.chance(0.04) {
+                    out.push(String::new());
+                }
+            }
+            let mut l = line.to_string();
+            if !is_deco {
+                for (from, to) in [
+                    (" * ", " × "),
+                    (" * ", " · "),
+                    (" / ", " ÷ "),
+                    (" -> ", " → "),
+                    (" -> ", " ➞ "),
+                    (" <= ", " ≤ "),
+                    (" >= ", " ≥ "),
+                    (" != ", " ≠ "),
+                    (")^2", ")²"),
+                ] {
+                    if l.contains(from) && self.rng.chance(0.15) {
+                        l = l.replacen(from, to, 1);
+                    }
+                }
+                if self.rng.chance(0.12) {
+                    l.push_str(&format!("  # t{}", self.rng.range(0, 99)));
+                }
+            }
+            out.push(l);
+            prev_decorator = is_deco;
+        }
+        out.join("\n")
     }
 
     /// Tell the generator whether the input it just produced succeeded in the real session.
